@@ -28,6 +28,26 @@ def vec_prefix(ex, st, v, op, hint):
     return P
 
 
+def prefix_sum_fn(ex, st, v):
+    """The prefix-sum function of vector object v: one function symbol per vector object and Exec (its recursive
+    definition is conservative, so it is assumed in whichever state mentions it)."""
+    cache = ex.__dict__.setdefault("_psum_cache", {})
+    hit = cache.get(id(v.at))
+    if hit is None or hit[1] is not v.at or hit[2] is not v.n:
+        s0 = type(st)(pc=[], heap=st.heap)
+        P = vec_prefix(ex, s0, v, lambda a, b: a + b, "psum")
+        s0.assume(P(0) == 0)
+        hit = (P, v.at, v.n, list(s0.pc))
+        cache[id(v.at)] = hit
+    mark = "psumdef:%d" % id(v.at)
+    if st.ghost.get(mark) is not hit[0]:
+        for f in hit[3]:
+            st.assume(f)
+        st.ghost = dict(st.ghost)
+        st.ghost[mark] = hit[0]
+    return hit[0]
+
+
 def vec_sum(ex, st, v):
     used(ex, "sum() = recursive prefix sum over positions (exact arithmetic)")
     if isinstance(v.n, int) and v.n <= 6:
@@ -35,9 +55,44 @@ def vec_sum(ex, st, v):
         for i in range(v.n):
             r = scalar_binop(ex, st, "Add", r, v.at(i))
         return r
-    P = vec_prefix(ex, st, v, lambda a, b: a + b, "psum")
-    st.assume(P(0) == 0)
-    return P(to_z3(v.n))
+    key = "sum:%d" % id(v.at)
+    hit = st.ghost.get(key)
+    if hit is not None and hit[1] is v.at and hit[2] is v.n:
+        return hit[0]          # the same vector object summed again on this path
+    P = prefix_sum_fn(ex, st, v)
+    total = P(to_z3(v.n))
+    # sign facts of a sum of non-negative terms (library lemmas psum_nonneg / psum_pos, proved by induction in
+    # contracts/lemmas.py; used here instantiated at this vector)
+    kk, jj = fresh(I, "k"), fresh(I, "j")
+    elem = to_z3(v.at(kk))
+    if elem.sort() == B:
+        elem = to_int(elem)
+    allnn = z3.ForAll([kk], z3.Implies(z3.And(0 <= kk, kk < to_z3(v.n)), elem >= 0))
+    elj = to_z3(v.at(jj))
+    if elj.sort() == B:
+        elj = to_int(elj)
+    somepos = z3.Exists([jj], z3.And(0 <= jj, jj < to_z3(v.n), elj > 0))
+    st.assume(z3.Implies(allnn, total >= 0))
+    st.assume(z3.Implies(z3.And(allnn, somepos), total > 0))
+    used(ex, "sum of non-negative terms is non-negative, and positive if some term is (lemmas psum_nonneg, psum_pos)")
+    # congruence with the sums already taken on this path: vectors that agree element by element have equal sums
+    # (stated per pair, so that sums of a spec-side vector and of the code's own vector can be related)
+    probe_sort = total.sort()
+    st.ghost = dict(st.ghost)
+    prev = list(st.ghost.get("sums", ()))
+    for (t2, v2) in prev[-6:]:
+        if t2.sort() != probe_sort:
+            continue
+        k = fresh(I, "k")
+        try:
+            same = z3.And(to_z3(v.n) == to_z3(v2.n),
+                          z3.ForAll([k], z3.Implies(z3.And(0 <= k, k < to_z3(v.n)), to_z3(v.at(k)) == to_z3(v2.at(k)))))
+        except Exception:
+            continue
+        st.assume(z3.Implies(same, total == t2))
+    st.ghost["sums"] = tuple(prev + [(total, v)])
+    st.ghost[key] = (total, v.at, v.n)
+    return total
 
 
 def vec_extreme(ex, st, v, is_max, node=None):
@@ -542,8 +597,8 @@ def sp_median_of(ex, st, args, kwargs, node):
 def v_mean(ex, st, o, args, kwargs, node):
     v = st.get(o)
     s = vec_sum(ex, st, v)
-    ex.oblig("div_nonzero", "L%s" % getattr(node, "lineno", "?"), st, to_z3(v.n) != 0)
-    return to_real(s) / to_real(v.n)
+    # (an empty Series has mean NaN, no exception: callers that matter guard on len)
+    return scalar_binop(ex, st, "Div", to_real(s), to_real(v.n), None)
 
 
 @vm("map", "apply")
@@ -772,19 +827,20 @@ def np_average(ex, st, args, kwargs, node):
     used(ex, "np.average(a, weights=w) = sum(a*w)/sum(w)")
     if w is None:
         s = vec_sum(ex, st, a)
-        return to_real(s) / to_real(a.n)
+        return scalar_binop(ex, st, "Div", to_real(s), to_real(a.n), None)
     same_index(ex, st, a, w, node)
     num = vec_sum(ex, st, Vec(a.n, lambda k: scalar_binop(ex, st, "Mult", a.at(k), w.at(k))))
     den = vec_sum(ex, st, w)
+    # np.average raises ZeroDivisionError when the weights sum to zero
     ex.oblig("div_nonzero", "L%s" % getattr(node, "lineno", "?"), st, to_z3(den) != 0)
-    return to_real(num) / to_real(den)
+    return scalar_binop(ex, st, "Div", to_real(num), to_real(den), None)
 
 
 @builtin("numpy.mean")
 def np_mean(ex, st, args, kwargs, node):
     a = st.get(args[0])
     s = vec_sum(ex, st, a)
-    return to_real(s) / to_real(a.n)
+    return scalar_binop(ex, st, "Div", to_real(s), to_real(a.n), None)
 
 
 @builtin("numpy.dtype")
@@ -1200,6 +1256,8 @@ def sp_isnull(ex, st, args, kwargs, node):
 def sp_val(ex, st, args, kwargs, node):
     """numeric payload of a nullable (unspecified when null)"""
     v = st.get(args[0])
+    if isinstance(v, float) and v != v:
+        return z3.RealVal(0)          # payload of NaN is unspecified
     return v.val if isinstance(v, NF) else v
 
 
@@ -1293,3 +1351,18 @@ def sp_some(ex, st, args, kwargs, node):
     """payload of an optional value (meaningful only where it is not None)"""
     v = st.get(args[0])
     return v.val if isinstance(v, OptV) else v
+
+
+@builtin("sumof")
+def sp_sumof(ex, st, args, kwargs, node):
+    """sum of a vector (spec language)"""
+    v = st.get(args[0])
+    return vec_sum(ex, st, v)
+
+
+@builtin("psum")
+def sp_psum(ex, st, args, kwargs, node):
+    """psum(v, m): sum of the first m elements of v (the prefix function of v; spec language)"""
+    v = st.get(args[0])
+    m = st.get(args[1])
+    return prefix_sum_fn(ex, st, v)(to_z3(m))
